@@ -75,20 +75,21 @@ type vfC17Rig struct {
 	sc   *vfScope
 	ip   string
 
-	mu       sync.Mutex
-	free     bool
-	waiters  []*vfC17Waiter
-	pendName string
-	pendConn int
-	conns    map[int]*vfC17RConn
-	hsConns  []*vfMemConn
-	hsFail   map[int]bool
-	dead     map[int]bool
-	nextFree int
-	failMode int
-	inDial   int32
-	lastEv   int64 // unix nano of the last hook / dial activity
-	calls    sync.WaitGroup
+	mu        sync.Mutex
+	free      bool
+	waiters   []*vfC17Waiter
+	pendName  string
+	pendConn  int
+	conns     map[int]*vfC17RConn
+	hsConns   []*vfMemConn
+	hsFail    map[int]bool
+	dead      map[int]bool
+	killedPre map[int]bool // killed while not (yet) in the pool
+	nextFree  int
+	failMode  int
+	inDial    int32
+	lastEv    int64 // unix nano of the last hook / dial activity
+	calls     sync.WaitGroup
 }
 
 // ---------------------------------------------------------------- dialer
@@ -325,9 +326,16 @@ func (r *vfC17Rig) exec(st vfC17Step) error {
 		}
 		w.rel <- 1
 	case "kill":
+		inPool := false
+		for _, id := range r.proj().Conns {
+			if id == st.C {
+				inPool = true
+			}
+		}
 		r.mu.Lock()
 		rc := r.conns[st.C]
 		r.dead[st.C] = true
+		r.killedPre[st.C] = !inPool
 		r.pendName = st.H
 		r.mu.Unlock()
 		if rc == nil {
@@ -413,6 +421,15 @@ func (r *vfC17Rig) snapshot(ev string, settle bool) vfC17Rec {
 	for id := range r.dead {
 		rec.Dead = append(rec.Dead, id)
 	}
+	for _, id := range p.Conns {
+		if r.dead[id] {
+			if r.killedPre[id] && rec.Q != "killed-in-pool" {
+				rec.Q = "killed-before-add"
+			} else {
+				rec.Q = "killed-in-pool"
+			}
+		}
+	}
 	for i, c := range r.hsConns {
 		if !c.IsClosed() {
 			rec.Open = append(rec.Open, 200+i)
@@ -429,7 +446,7 @@ func vfC17NewRig(sess *Session, d *vfC17Dialer, cl *vfCluster, n, size int) *vfC
 	k := int(atomic.AddInt32(&vfC17HostSeq, 1))
 	ip := fmt.Sprintf("10.%d.%d.%d", 1+k/60000, (k/250)%240, 1+k%250)
 	desc := vfHostDesc{ID: fmt.Sprintf("00000000-0000-0000-0001-%012d", k), Addr: ip, DC: "dc1", Rack: "r1", Tokens: []string{"1"}}
-	r := &vfC17Rig{n: n, size: size, sess: sess, ip: ip, conns: map[int]*vfC17RConn{}, hsFail: map[int]bool{}, dead: map[int]bool{}}
+	r := &vfC17Rig{n: n, size: size, sess: sess, ip: ip, conns: map[int]*vfC17RConn{}, hsFail: map[int]bool{}, dead: map[int]bool{}, killedPre: map[int]bool{}}
 	r.node = vfNewNode(cl, desc)
 	r.node.Handler = func(nc *vfNodeConn, f *vfFrame, q *vfRequest) bool {
 		if f.Op == vfOpStartup {
